@@ -178,6 +178,38 @@ def run(chk):
     chk.ob('C05-R2', bool(refs), None, 'constraint generator %s is used' % name,
            '%s is no longer applied' % name, fi=fi)
 
+  chk.rule('C05-R5', 'inference order: the dependencies of a predicate '
+           'accumulate over all its rules and rules are inferred in order of '
+           'dependency complexity', min_instances=3)
+  bd = repo.func('infer.BuildDependencies')
+  stores = []
+  for x in walk_local(bd.node):
+    if isinstance(x, ast.Assign) and isinstance(x.targets[0], ast.Subscript) and \
+        dotted(x.targets[0].value) == 'result':
+      stores.append(x)
+    if isinstance(x, ast.AugAssign) and isinstance(x.target, ast.Subscript) and \
+        dotted(x.target.value) == 'result':
+      stores.append(x)
+  if not stores:
+    raise AnalysisError('BuildDependencies: store into the result map not found')
+  for x in stores:
+    accum = isinstance(x, ast.AugAssign) or any(
+        isinstance(y, ast.Name) and y.id == 'result' for y in ast.walk(x.value))
+    chk.ob('C05-R5', accum, None, 'dependencies of a predicate accumulate over its rules',
+           'each rule overwrites the dependencies recorded for its predicate: a '
+           'multi-rule predicate is ranked by its last rule only and can be '
+           'typed before a predicate one of its other rules calls', fi=bd, node=x)
+  eng = repo.func('infer.TypesInferenceEngine.__init__')
+  srt = [c for c in walk_local(eng.node) if isinstance(c, ast.Call) and call_tail(c) == 'sorted']
+  ok = any('complexities' in norm(k.value) for c in srt for k in c.keywords if k.arg == 'key')
+  chk.ob('C05-R5', ok, None, 'rules are inferred in order of dependency complexity',
+         'rules are no longer sorted by the complexity of their predicate', fi=eng)
+  bc = repo.func('infer.BuildComplexities')
+  ok = any(isinstance(c, ast.Call) and call_tail(c) == 'sum' for c in ast.walk(bc.node)) and \
+      any(isinstance(c, ast.Call) and call_tail(c) == 'GetComplexity' for c in ast.walk(bc.node))
+  chk.ob('C05-R5', ok, None, 'complexity of a predicate exceeds that of everything it depends on',
+         'complexity is no longer 1 + sum over dependencies', fi=bc)
+
   chk.rule('C05-R3', 'whole-program checking (__init__) and per-structure '
            'checking (SingleRuleSql) are gated by the same predicate '
            'Annotations.ShouldTypecheck()', min_instances=2)
